@@ -176,7 +176,18 @@ pub fn with_watchdog<R: Send + 'static>(fake: &Arc<FakeSat>, secs: u64, f: impl 
                     .filter(|w| !evs.iter().any(|e| e["event"] == "written" && e["what"] == w["what"]))
                     .filter_map(|w| w["bytes"].as_u64())
                     .max();
-                if !done {
+                // the kernel's view: is the child asleep in a write to a pipe?
+                let child_pid = evs.iter().filter_map(|e| e["pid"].as_u64()).next();
+                let wchan = child_pid
+                    .and_then(|p| std::fs::read_to_string(format!("/proc/{}/wchan", p)).ok())
+                    .unwrap_or_default();
+                if !done && wchan.contains("pipe_write") {
+                    verdict = Watched::Deadlock(format!(
+                        "call did not return within {} s while the child (invocation {}, pid {:?}) sleeps in {} on its stdout pipe: nobody reads the solver's output",
+                        secs, inv, child_pid, wchan.trim()
+                    ));
+                }
+                if !done && !matches!(verdict, Watched::Deadlock(_)) {
                     if let Some(b) = pending {
                         if b > 65536 {
                             verdict = Watched::Deadlock(format!(
